@@ -6,6 +6,7 @@ messages) pending per context poll, so the implementation is deterministic under
 
 import itertools
 import os
+import random
 from . import mqtt as m
 
 STRS = [b'', b'a', b't/1', 'hé'.encode(), b'x' * 7]
@@ -2335,11 +2336,26 @@ def fam_C17(rng, tier):
     return out
 
 
+ACTOR = ['C05', 'C06', 'C07', 'C08', 'C09', 'C10', 'C12', 'C13', 'C14', 'C15', 'C17']
+
+
 def with_common(fam, prefix, **kw):
     def f(rng, tier):
-        return fam(rng, tier) + fam_common(rng, tier, prefix, **kw)
+        out = fam(rng, tier) + fam_common(rng, tier, prefix, **kw)
+        if tier != 'quick' and prefix.upper() in ACTOR and os.environ.get('VERIF_UNION', '1') != '0':
+            # thorough tier: additionally the quick families of every OTHER actor property, judged by this property's
+            # oracle and the correspondence comparison (a change that breaks this property often needs a situation that
+            # only a sibling property's scripts construct: section 12 of DESIGN.md)
+            r2 = random.Random(rng.random())
+            for other in ACTOR:
+                if other != prefix.upper():
+                    out += [(f'{prefix}-x-{n}', l) for n, l in BASE[other](r2, 'quick') if not n.startswith('big-')]
+        return out
     return f
 
+
+BASE = {'C05': fam_C05, 'C06': fam_C06, 'C07': fam_C07, 'C08': fam_C08, 'C09': fam_C09, 'C10': fam_C10, 'C12': fam_C12,
+        'C13': fam_C13, 'C14': fam_C14, 'C15': fam_C15, 'C17': fam_C17}
 
 FAMILIES = {
     'C01': fam_C01, 'C02': fam_C02, 'C03': fam_C03,
@@ -2348,5 +2364,6 @@ FAMILIES = {
     'C10': with_common(fam_C10, 'c10'), 'C11': with_common(fam_C11, 'c11', n_quick=15, n_thorough=300),
     'C12': with_common(fam_C12, 'c12'), 'C13': with_common(fam_C13, 'c13'),
     'C14': with_common(fam_C14, 'c14', tail=['DROPCTX', 'OP 9001 h0 PING', 'OP 9002 h0 DISCONNECT']),
-    'C15': with_common(fam_C15, 'c15'), 'C16': fam_C16, 'C17': fam_C17,
+    'C15': with_common(fam_C15, 'c15'), 'C16': fam_C16,
+    'C17': with_common(fam_C17, 'c17', n_quick=0, n_thorough=0),
 }
